@@ -524,6 +524,17 @@ def main():
             .create_bid("buyer", [(10, "nhash")] if code == "R" else [], B2, None, "2", "nhash", 10, 5) \
             .create_ask("seller", [(5, "base")], A1, "base", "nhash", "2", 5).match("exec", A1, B1, "2", 2).rev("reject_bid", "exec", B1, 1) \
             .exits(owner_a="seller", owner_b="buyer").write()
+    # a denomination whose spelling suggests a kind of coin while the marker table says otherwise, and changes its mind:
+    # escrowed while it is an ordinary coin, paid out after it has become a restricted marker (and the other way round)
+    IBC = "ibc/" + "0123456789ABCDEF" * 4
+    for dn, tag in ((IBC, "ibc"), ("nhash", "nhash"), ("factory/alice/sub", "factory")):
+        for first, then in (("U", "R"), ("R", "U")):
+            H("c10_%s_marker_turns_%s" % (tag, then), "denomination %s escrowed as %s, paid out as %s" % (tag, first, then)) \
+                .env(markers={dn: first}).inst(quotes=(dn,)) \
+                .create_bid("buyer", [(20, dn)] if first == "U" else [], B1, None, "2", dn, 20, 10) \
+                .create_ask("seller", [(10, "base")], A1, "base", dn, "2", 10).env(markers={dn: then}) \
+                .match("exec", A1, B1, "2", 3).rev("reject_bid", "exec", B1, 2).exits(owner_a="seller", owner_b="buyer") \
+                .rev("cancel_bid", "buyer", B1).write()
     h = H("c14_c15_schema_words_and_undeclared_members", "a legacy book whose records carry a member the struct does not declare, owners named like schema fields migration").env()
     h.lines += ["SEEDCFG ats ~ base cv q appr exec - feeb=0.1 [] [] 0 1", "SEEDVER ats_smart_contract 0.18.2",
                 "SEEDBID2X %s %s events_desk base 10 q 20 2:q 2 []" % (enc(B1), enc(B1)),
